@@ -183,6 +183,12 @@ func (sw *SessionWindow) Add(data any) {
 		if !tsOk {
 			return // unplaceable event: drop instead of fake wall-clock time
 		}
+		// Far-future garbage (see maxFutureSlack): the watermark ignores it, and it must
+		// not be merged into the key's open session either — that would push the
+		// session end ~forever ahead and the real events in it would never be emitted.
+		if timestamp.After(time.Now().Add(sw.config.MaxOutOfOrderness + maxFutureSlack)) {
+			return
+		}
 		if sw.watermark != nil {
 			sw.watermark.UpdateEventTime(timestamp)
 			if sw.watermark.IsEventTimeLate(timestamp) {
